@@ -9,6 +9,7 @@ import (
 	"go/token"
 	"go/types"
 	"math/big"
+	"os"
 	"strconv"
 	"strings"
 
@@ -919,6 +920,9 @@ func (x *Exec) matchEvent(sc *specCtx, f ast.Expr, ev *Event) Term {
 		}
 	case *ast.Ident:
 		if v, ok := sc.lookupVar(f.Name); ok {
+			if os.Getenv("GOVC_DEBUG") != "" {
+				fmt.Fprintf(os.Stderr, "matchEvent: ident %s resolves to %T %v\n", f.Name, v, v)
+			}
 			if fv, ok := v.(FuncV); ok {
 				if cv, ok := ev.Callee.(FuncV); ok {
 					if cv.ID.S == fv.ID.S {
@@ -927,6 +931,13 @@ func (x *Exec) matchEvent(sc *specCtx, f ast.Expr, ev *Event) Term {
 					if fv.Fn != nil && cv.Fn != nil {
 						return boolLit(fv.Fn == cv.Fn)
 					}
+					if strings.HasPrefix(cv.ID.S, "p_") && strings.HasPrefix(fv.ID.S, "p_") {
+						return tFalse // calls made through distinct function-typed parameters
+					}
+					if (fv.Fn == nil) != (cv.Fn == nil) {
+						return tFalse // a statically known callee vs. a call through a function value
+					}
+					return eq(cv.ID, fv.ID)
 				}
 				return tFalse
 			}
